@@ -82,11 +82,14 @@ structure ClaimMsg where
   ctype : Nat          -- 0 unspecified, 1 burn, 2 lock
   deriving Repr
 
+/-- `strings.ToLower` on ASCII symbols -/
+def asciiLower (s : String) : String := String.ofList (s.toList.map Char.toLower)
+
 /-- `MsgCreateEthBridgeClaim.ValidateBasic` (receiver, validator and bridge contract are well-formed by
     construction of the harness lines) -/
 def claimValidate (m : ClaimMsg) : Bool :=
   decide (0 ≤ m.nonce) && isHexAddress m.sender && isHexAddress m.token &&
-    !(m.symbol.toLower == "eth" && ethAddr m.token != some 0)
+    !(asciiLower m.symbol == "eth" && ethAddr m.token != some 0)
 
 /-- `CreateOracleClaimFromEthClaim`: decimal chain id ++ decimal nonce ++ sender, no separators -/
 def prophecyId (chain nonce : Int) (sender : String) : String :=
